@@ -131,7 +131,15 @@ def _run_paging(case, obs):
         mode = case["mode"]
         sent = {}
         if mode == "all":
-            got = list(client.get_sessions(site, timeseries=case["ts"]))
+            got = []
+            try:
+                for g_ in client.get_sessions(site, timeseries=case["ts"]):
+                    got.append(g_)
+            except (RecursionError, MemoryError) as e_:
+                # the generator died while following a well-formed chain of pages: everything after this point is lost
+                obs.violate("generator_raised", f"{type(e_).__name__} after {len(got)} of {len(docs)} sessions over {len(fake.log)} requests",
+                            config=cfg, yielded=len(got))
+                return
             exp = [d["_id"] for d in docs]
         elif mode == "args":
             me = rng.choice([5.0, 20.0])
